@@ -2,6 +2,12 @@
 """writes MANIFEST.json from the table below (keeps it valid and in one place)"""
 import json, os
 CHECKS = {
+ 'C06': dict(technique='send-queue node typestate {owned, in send queue, in delay queue, deleted} via the linear-ownership engine (R-OWN-NODE), gate/count/NACK-once typestate in coap_retransmit (R-RETRANS)',
+             text='Decides on every path that a queue node has one owner and one disposal (never leaked, never deleted while linked in a delay queue, never used '
+                  'after deletion), that retransmission is gated by retransmit_cnt < max_retransmit with exactly one increment, and that a given-up Confirmable is '
+                  'NACKed exactly once. Necessary for "ends in one outcome and is never sent again"; timing, byte-identical retransmission and behaviour '
+                  'under loss patterns are not decided.',
+             design='6 C06'),
  'C08': dict(technique='who-may-write census plus path-sensitive gate/in-hand typestate on the in-flight counter (R-CNT-CON)',
              text='Decides the accounting discipline of con_active on every path of every writer: writer kinds, decrement only with a send-queue node in hand, '
                   'increment only below the NSTART comparison, transmitters count. These are necessary for the in-flight bound; the bound itself under all '
